@@ -1,4 +1,5 @@
 """C17 — recursion layers and aggregations chain, with or without cached preparation.
+(Version for the tree with findings F10 / F10b repaired by fixes/C17-1.diff + fixes/C17-2.diff.)
 
 Plug-in for bin/check. One run of the *release* harness (`p3r-harness layers`) drives the real
 `prove_next_layer`, `prove_aggregation_layer`, `prove_aggregation_layer_cross`,
@@ -16,7 +17,7 @@ CORRESPONDENCE = ("cache state machine of recursion/src/recursion.rs (prove_next
                   "prove_aggregation_layer{,_cross} AggregationPrepCache: hit / miss / fill, whose preparation data "
                   "is used, content of the cache variable after each call), aggregation_circuit_fingerprint and "
                   "equality of preprocessed columns of generated circuits vs lean/P3R/Model/Cache.lean "
-                  "(step, run, fingerprint) + Model/Roles.lean (genPrep)")
+                  "(step, run, fingerprint, fingerprintX, structureOf) + Model/Roles.lean (genPrep)")
 
 
 def _read(p):
@@ -27,7 +28,7 @@ def _read(p):
 def _same(impl, model):
     """Line equality, except that a call the implementation could not complete (`fail=…`) is
     compatible with a model step for which a hypothesis of the partial theorem is falsified
-    (`eq=?K` / `eq=?C`: the model makes no prediction about the outcome there)."""
+    (`eq=?K`: a digest collision; the model makes no prediction about the outcome there)."""
     if impl == model:
         return True
     a, b = impl.split(" | "), model.split(" | ")
@@ -37,7 +38,7 @@ def _same(impl, model):
         if x == y:
             continue
         xs, ys = x.split(), y.split()
-        if len(xs) == 2 and xs[1].startswith("fail=") and ys and ys[0] == xs[0] and ys[-1] in ("eq=?K", "eq=?C"):
+        if len(xs) == 2 and xs[1].startswith("fail=") and ys and ys[0] == xs[0] and ys[-1] == "eq=?K":
             continue
         return False
     return True
@@ -136,12 +137,14 @@ CHECK = {
     "lean_modules": ["P3R.Props.C17", "P3R.Witness.C17"],
     "lean_exes": ["p3r_driver_c17"],
     "theorems": [
-        "P3R.C17.cache_refines_uncached_partial", "P3R.C17.cache_refines_uncached",
-        "P3R.C17.cached_verdict_eq_uncached_partial", "P3R.C17.different_job_recomputed",
-        "P3R.C17.agg_hit_iff", "P3R.C17.agg_used_correct_iff", "P3R.C17.circuit_part_refines_partial",
-        "P3R.C17.slotsWF_run",
-        "P3R.Witness.C17.fingerprint_not_injective", "P3R.Witness.C17.cache_full_statement_false",
-        "P3R.Witness.C17.witness_falsifies_key_hypothesis", "P3R.Witness.C17.next_layer_full_statement_false",
+        "P3R.C17.cache_refines_uncached_digest", "P3R.C17.cache_refines_uncached_partial",
+        "P3R.C17.cache_refines_uncached", "P3R.C17.cached_verdict_eq_uncached_partial",
+        "P3R.C17.refused_iff", "P3R.C17.keyDeterminesPrep_of_digest", "P3R.C17.prepData_congr",
+        "P3R.C17.different_job_recomputed", "P3R.C17.agg_hit_iff", "P3R.C17.agg_used_correct_iff",
+        "P3R.C17.circuit_part_refines_partial", "P3R.C17.slotsWF_run",
+        "P3R.Witness.C17.counters_not_injective", "P3R.Witness.C17.witness_now_recomputed",
+        "P3R.Witness.C17.witness_next_now_refused", "P3R.Witness.C17.witness_satisfies_digest_hypothesis",
+        "P3R.Witness.C17.counters_only_key_insufficient", "P3R.Witness.C17.constant_digest_insufficient",
         "P3R.Witness.C17.params_stale",
     ],
     "run": run,
@@ -155,10 +158,15 @@ CHECK = {
         "preprocessed columns the real preparation computes (too large to be re-compiled by the model)",
     ],
     "assumptions": [
-        "KeyDeterminesPrep (hypothesis of cache_refines_uncached_partial): circuits of one history that share the four "
-        "counters share their preprocessed columns; false in general (known finding F10)",
-        "CallerPrepsMatch: every NextLayerPrepCache passed to prove_next_layer was built for a circuit with the same "
-        "preprocessed columns; nothing in the code checks it (known finding F10b)",
+        "DigestInjOn (the only hypothesis of cache_refines_uncached_digest): the 64-bit FNV-1a structure digest of the "
+        "repaired fingerprint does not collide on the verification circuits of one call history (its own circuits, those of "
+        "the preparations handed in, those stored in the cache variables). Not a theorem and not true of all circuits "
+        "(pigeonhole); FNV-1a is not collision resistant against an adversarial caller, the cache API is a prover-side "
+        "convenience, not a verifier-side check. KeyDeterminesPrep is derived from it (keyDeterminesPrep_of_digest), "
+        "CallerPrepsMatch is enforced by the code (refused_iff)",
+        "the digest is computed from the Debug rendering of (ops, public_rows, private_input_rows); the model takes the "
+        "structure itself as digest. That the rendering separates different op lists and is equal for equal ones is "
+        "observed by the correspondence (hit / miss / refusal lines of every history), not proved",
         "the same config (PCS, FRI parameters, ZK seed) is used for every call that shares a cache (documented requirement "
         "of the API; the config is a fixed value in all histories); ProveNextLayerParams may change: a hit then proves with "
         "the stored params and the proof, which records its packing, still verifies (observed per run, Witness.C17.params_stale)",
@@ -180,14 +188,14 @@ MANIFEST_ENTRY = {
         "category": "proof",
         "text": "for every sequence of next-layer / aggregation / cross-aggregation calls, every number of cache variables, "
                 "every initial cache content and every pattern of cache arguments: each call proves with the preparation data "
-                "of its own job (hence has the uncached outcome) provided jobs sharing a key share their preparation and "
-                "caller-supplied next-layer preparations match; a stored preparation whose key differs is recomputed and "
-                "overwritten; the unconditional statement is refuted in Lean for both caches (four-counter fingerprint not "
-                "injective; prove_next_layer compares nothing) and both refutations are replayed on the real code every run; "
+                "of its own circuit (hence has the uncached outcome) or, for prove_next_layer handed a preparation with another "
+                "fingerprint, is refused with an error — under the single assumption that the structure digest does not collide "
+                "on the circuits of the history (KeyDeterminesPrep derived, CallerPrepsMatch enforced by the repaired code); the "
+                "witnesses of the repaired findings F10 / F10b are regression cases on the real code every run; "
                 "chaining (output verifies natively and is accepted by a further layer, uni/batch, left/right) is exercised on "
                 "the real code, not proved",
         "design_ref": "4/C17",
     },
     "level_note": "Lean kernel + 3 standard axioms; the model is tied to recursion.rs by line-exact comparison of what the real "
-                  "functions did on every generated history; soundness/completeness of the STARK layer assumed; known findings F10, F10b",
+                  "functions did on every generated history; soundness/completeness of the STARK layer assumed; digest collision-freeness assumed; F10, F10b fixed",
 }
